@@ -43,7 +43,7 @@ def branch_cases(tier):
 def realisations(d):
     r = ["dot", "labelarith"]
     if d >= 0 or d <= -2:
-        r += ["filler", "local"]
+        r += ["filler", "local", "localarith"]
     return r
 
 
@@ -93,6 +93,31 @@ def build_branch(name, d, how, base, rnd):
                 stmts.append(apm.blk(".blkb", apm.num(fill)))
             br_index = len(stmts)
             stmts.append(apm.insn(name, *ops, ("br", ref)))
+    elif how == "localarith":
+        # 'br 12+4': the first number of a compound branch operand is a local label (documented compatibility rule), the rest are numbers
+        lab = rnd.choice(["12", "10", "17", "100", "3", "7$", "77", "1"])
+        if d >= 0:
+            k = 2 * rnd.randrange(0, min(d, 12) // 2 + 1)
+            br_index = len(stmts)
+            e = ("bin", "+", ("loc", lab), apm.num(k, rnd.choice([None, "d"])))
+            stmts.append(apm.insn(name, *ops, ("br", e)))
+            if d - k:
+                stmts.append(apm.blk(".blkb", apm.num(d - k)))
+            stmts.append(apm.label(lab))
+            stmts.append(apm.blk(".blkb", apm.num(k + 1)))
+        else:
+            fill = -d - 2
+            k = 2 * rnd.randrange(0, min(fill, 12) // 2 + 1)
+            if d % 2:
+                stmts.append(apm.data(".byte", apm.num(0)))
+            if k:
+                stmts.append(apm.blk(".blkb", apm.num(k)))      # the target is the first of these bytes
+            stmts.append(apm.label(lab))
+            if fill - k:
+                stmts.append(apm.blk(".blkb", apm.num(fill - k)))
+            br_index = len(stmts)
+            e = ("bin", "-", ("loc", lab), apm.num(k, rnd.choice([None, "d"])))
+            stmts.append(apm.insn(name, *ops, ("br", e)))
     if how == "local" and d < 0:
         # the local label must be in the same scope as the branch: 'anchor' (an ordinary label) precedes both -> fine
         pass
@@ -102,6 +127,7 @@ def build_branch(name, d, how, base, rnd):
 def gen_relative_program(rnd, base):
     from vlib import apm
     stmts = [apm.link(apm.num(base))]
+    link_last = rnd.random() < 0.3        # the base is stated after all the code: every address is symbolic while the operands are encoded
     nlab = rnd.randrange(2, 7)
     labels = [f"l{i}" for i in range(nlab)]
     body = []
@@ -198,7 +224,65 @@ def gen_relative_program(rnd, base):
     if pending_local_def:
         out.append(apm.label(pending_local_def[0]))
     stmts += out
+    if link_last:
+        stmts.append(stmts.pop(0))
     return apm.Program([apm.SrcFile("/c04/main.mac", stmts)]), tags
+
+
+def gen_include_program(rnd, base):
+    """(C) an included file in the middle of the including one: branches, sob and relative operands inside the included file aim at
+    exported labels of the including file (before and after the include) and the including file aims at the included file's."""
+    from vlib import apm
+    tags = []
+
+    def operand(names):
+        t = rnd.choice(names)
+        shape = rnd.choice(["label", "label", "label+k"])
+        return shape, (("sym", t) if shape == "label" else ("bin", "+", ("sym", t), apm.num(2 * rnd.randrange(0, 8))))
+
+    def body(names, where, n, back=None):
+        out = []
+        for _ in range(n):
+            roll = rnd.random()
+            if roll < 0.25:
+                nm = rnd.choice(["br", "bne", "bcs", "bge"])
+                out.append(apm.insn(nm, ("br", ("sym", rnd.choice(names)))))
+                tags.append(f"{where}|branch")
+            elif roll < 0.32 and back:
+                out.append(apm.insn("sob", ("reg", rnd.randrange(6)), ("br", ("sym", rnd.choice(back)))))
+                tags.append(f"{where}|sob")
+            elif roll < 0.5:
+                sh, e = operand(names)
+                out.append(apm.insn("clr", ("rel", e))); tags.append(f"{where}|pos0|ext0|{sh}")
+            elif roll < 0.65:
+                sh, e = operand(names)
+                out.append(apm.insn("mov", ("imm", apm.num(rnd.randrange(100))), ("reld", e))); tags.append(f"{where}|pos1d|ext1|{sh}")
+            elif roll < 0.8:
+                sh, e = operand(names)
+                sh2, e2 = operand(names)
+                out.append(apm.insn("cmp", ("rel", e), ("rel", e2))); tags.append(f"{where}|pos0+1|ext1|{sh}|{sh2}")
+            elif roll < 0.9:
+                sh, e = operand(names)
+                out.append(apm.insn("jmp", ("reld", e))); tags.append(f"{where}|pos0d|ext0|{sh}")
+            else:
+                out.append(apm.data(".word", ("sym", rnd.choice(names))))
+        return out
+
+    outer = ["ga", "gb", "gc"]
+    inner = ["ia", "ib"]
+    inc = [apm.label("ia", extern=True)] + body(outer, "inc>host", rnd.randrange(1, 5), back=["ga", "ia"]) + \
+          [apm.label("ib", extern=True)] + body(outer + inner, "inc>any", rnd.randrange(0, 4), back=["ga", "ia", "ib"])
+    pre = 2 * rnd.randrange(1, 40)
+    site = rnd.choice(["first", "last", "none"])      # where the base becomes known: at once, after everything, or never stated (default 1000)
+    main = ([apm.link(apm.num(base))] if site == "first" else []) + [apm.blk(".blkb", apm.num(pre)), apm.label("ga", extern=True)]
+    main += body(outer + inner, "host>any", rnd.randrange(0, 4), back=["ga"])
+    main += [apm.label("gb", extern=True), apm.include("inc.mac")]
+    main += body(outer + inner, "host>any", rnd.randrange(0, 4), back=["ga", "gb", "ia", "ib"])
+    main += [apm.label("gc", extern=True), apm.data(".word", apm.num(0))]
+    if site == "last":
+        main.append(apm.link(apm.num(base)))
+    tags = [f"{t}|link-{site}" for t in tags]
+    return apm.Program([apm.SrcFile("main.mac", main)], aux={"inc.mac": apm.SrcFile("inc.mac", inc)}), tags
 
 
 def run_shard(spec):
@@ -235,6 +319,17 @@ def run_shard(spec):
         res["sets"]["rel_shapes"].extend(tags)
         if i < 1:
             res["samples"].append({"kind": "rel", "text": refcheck.render_all(prog)["/c04/main.mac"].splitlines()[:14]})
+    for i in range(nrel // 3):
+        base = rnd.choice(BASES)
+        prog, tags = gen_include_program(rnd, base)
+        case = {"kind": "inc", "prog": apm.to_json(prog)}
+        res["violations"].extend(run_case(case, cnt))
+        res["evaluations"] += 1
+        res["distinct"].extend(tags)
+        res["sets"]["rel_shapes"].extend(tags)
+        if i < 1:
+            t = refcheck.render_all(prog)
+            res["samples"].append({"kind": "inc", "main": t["main.mac"].splitlines()[:14], "inc": t["inc.mac"].splitlines()[:10]})
     return res
 
 
@@ -248,6 +343,22 @@ def run_case(case, cnt=None):
         out.append({"what": what, "case": case})
 
     prog = apm.from_json(case["prog"])
+    if case["kind"] == "inc":
+        import os
+        c = {}
+        verdict, msgs, o, texts = refcheck.run_prog_case(prog, os.getcwd(), c, wall=60)
+        cnt["include_programs"] = cnt.get("include_programs", 0) + 1
+        if verdict == "violation":
+            viol("relative operands / branches across an include: " + "; ".join(msgs) + " || main: " + " | ".join(texts["main.mac"].splitlines()) +
+                 " || inc: " + " | ".join(texts["inc.mac"].splitlines()))
+        elif verdict == "unmodelled":
+            viol(f"include program left the modelled fragment: {msgs}")
+        elif verdict == "agree" and o.cls == "ok":
+            cnt["relative_operands_decoded"] = cnt.get("relative_operands_decoded", 0) + c.get("insn_statements_decoded", 0)
+            cnt["include_programs_decoded"] = cnt.get("include_programs_decoded", 0) + 1
+        elif verdict == "agree":
+            cnt["include_programs_rejected_by_both"] = cnt.get("include_programs_rejected_by_both", 0) + 1
+        return out
     texts = refcheck.render_all(prog)
     files = [(f.name, texts[f.name]) for f in prog.files]
     o = asm.assemble(files, wall=60)
